@@ -988,11 +988,11 @@ v("d74-polars-blocks-pasted-by-position", "C17", PM,
 v("d75-sqlite-native-percent", "C05", "SQLite.py",
   '        f" ELSE ({e0} - FLOOR({e0} / (1.0 * {e1})) * {e1}) END)"\n', '        f" ELSE ({e0} % {e1}) END)"\n')
 v("d85-sqlite-modulo-through-double", "C05", "SQLite.py",
-  "        f\"(CASE WHEN (typeof({e0}) = 'integer') AND (typeof({e1}) = 'integer')\"\n        f\" THEN ((({e0} % {e1}) + {e1}) % {e1})\"\n        f\" ELSE ({e0} - FLOOR({e0} / (1.0 * {e1})) * {e1}) END)\"\n",
+  "        f\"(CASE WHEN (typeof({e0}) = 'integer') AND (typeof({e1}) = 'integer')\"\n        f\" THEN (({e0} % {e1}) + (CASE WHEN (({e0} % {e1}) != 0) AND (({e0} < 0) != ({e1} < 0)) THEN {e1} ELSE 0 END))\"\n        f\" ELSE ({e0} - FLOOR({e0} / (1.0 * {e1})) * {e1}) END)\"\n",
   "        f\"({e0} - FLOOR({e0} / (1.0 * {e1})) * {e1})\"\n")
 v("d88-hash-reads-columns-by-label", "C25", EC,
-  "        [type(v).__name__ for v in d.iloc[:, j]]\n        if str(d.iloc[:, j].dtype) == \"object\"\n        else [type(v).__name__ for v in d.iloc[:, j].cat.categories]\n        for j in range(d.shape[1])\n        if str(d.iloc[:, j].dtype) in (\"object\", \"category\")\n",
-  "        [type(v).__name__ for v in d[c]]\n        if str(d[c].dtype) == \"object\"\n        else [type(v).__name__ for v in d[c].cat.categories]\n        for c in d.columns\n        if str(d[c].dtype) in (\"object\", \"category\")\n")
+  "        [type(v).__name__ for v in d.iloc[:, j]]\n        if str(d.iloc[:, j].dtype) == \"object\"\n        else [type(v).__name__ for v in d.iloc[:, j].cat.categories]\n        + [hashlib.sha256(d.iloc[:, j].cat.codes.to_numpy().tobytes()).hexdigest()]\n        for j in range(d.shape[1])\n        if str(d.iloc[:, j].dtype) in (\"object\", \"category\")\n",
+  "        [type(v).__name__ for v in d[c]]\n        if str(d[c].dtype) == \"object\"\n        else [type(v).__name__ for v in d[c].cat.categories]\n        + [hashlib.sha256(d[c].cat.codes.to_numpy().tobytes()).hexdigest()]\n        for c in d.columns\n        if str(d[c].dtype) in (\"object\", \"category\")\n")
 v("d89-bound-kwargs-not-flattened", "C22", DS,
   "                    if p_def.kind is p_def.VAR_KEYWORD:\n                        # keywords caught by **kwargs are named arguments\n                        extra_keywords = check_kwargs.pop(p_name, {})\n                    elif p_def.kind is p_def.VAR_POSITIONAL:",
   "                    if p_def.kind is p_def.VAR_POSITIONAL:")
@@ -1127,7 +1127,7 @@ v("d129-floor-division-on-sql-slash", "C05", SM, "    ratio = (expression.args[0
 v("d153-spark-float-division-decimal-literal", "C05", SP, "    return f\"({e0} / CAST({e1} AS DOUBLE))\"", "    return f\"({e0} / (1.0 * {e1}))\"")
 v("d151-sqlite-round-away-from-zero", "C05", SQ, "    return float(round(x))\n", "    return float(math.floor(abs(x) + 0.5)) * (1.0 if x >= 0 else -1.0)\n")
 
-v("d130-where-raw-condition", "C05", PB, "    return _none_for_missing(numpy.where(_true_positions(cond), a, b))", "    return _none_for_missing(numpy.where(cond, a, b))")
+v("d130-where-raw-condition", "C05", PB, "    return numpy.where(_true_positions(cond), _plain_branch(a), _plain_branch(b))", "    return numpy.where(cond, _plain_branch(a), _plain_branch(b))")
 
 v("d131-polars-is-inf-null", "C03", PM, "        \"is_inf\": lambda x: x.is_infinite().fill_null(\n            False\n        ),", "        \"is_inf\": lambda x: x.is_infinite(),")
 
@@ -1169,17 +1169,17 @@ SOL = "solutions.py"
 v("d148-mark-pasted-between-quotes", "C14", SOL, "{source_id_column} == {_literal_text(state_row_mark)}).if_else(None, {k})\"", "{source_id_column} == \\\"{state_row_mark}\\\").if_else(None, {k})\"")
 v("d149-spark-literal-keeps-dollar-brace", "C14", SP, "            .replace(\"${\", \"$\\\\{\")\n", "")
 
-v("d159-is-in-masked-column", "C05", PB, "    if hasattr(a, \"isin\") and hasattr(getattr(a, \"dtype\", None), \"na_value\"):\n        # a nullable (masked) column: numpy can not compare its missing entries, which are in no set\n        return numpy.asarray(a.isin(b), dtype=bool)\n", "")
+v("d159-is-in-masked-column", "C05", PB, "    if hasattr(a, \"isin\") and hasattr(getattr(a, \"dtype\", None), \"na_value\"):\n        # a nullable (masked) column: numpy can not compare its missing entries, which are in no set\n        return numpy.asarray(a.isin(b), dtype=bool) & numpy.asarray(a.notna(), dtype=bool)\n", "")
 v("d160-and-or-numbers-refused", "C05", PB, "            if self.pd.api.types.is_numeric_dtype(a.dtype) and (\n                not self.pd.api.types.is_bool_dtype(a.dtype)\n            ):", "            if False:")
 v("d161-condition-fallback-unread", "C05", PB, "        missing = numpy.asarray(cond.isna(), dtype=bool)\n        if missing.any():\n            # numpy takes nan for a true value\n            values = numpy.array(cond.to_numpy(dtype=object), dtype=object)\n            values[missing] = False\n            return values.astype(bool)\n", "")
-v("d161-where-result-keeps-na", "C05", PB, "    return _none_for_missing(numpy.where(_true_positions(cond), a, b))", "    return numpy.where(_true_positions(cond), a, b)")
-v("d161-if-else-result-keeps-na", "C05", PB, "        res = _none_for_missing(numpy.where(_true_positions(cond), a, b))", "        res = numpy.where(_true_positions(cond), a, b)")
-v("c05-sqlite-mod-sign-of-dividend", "C05", SQ, " THEN ((({e0} % {e1}) + {e1}) % {e1})\"", " THEN ({e0} % {e1})\"")
+v("d161-where-result-keeps-na", "C05", PB, "    return numpy.where(_true_positions(cond), _plain_branch(a), _plain_branch(b))", "    return numpy.where(_true_positions(cond), a, b)")
+v("d161-if-else-result-keeps-na", "C05", PB, "        res = numpy.where(_true_positions(cond), _plain_branch(a), _plain_branch(b))", "        res = numpy.where(_true_positions(cond), a, b)")
+v("c05-sqlite-mod-sign-of-dividend", "C05", SQ, " THEN (({e0} % {e1}) + (CASE WHEN (({e0} % {e1}) != 0) AND (({e0} < 0) != ({e1} < 0)) THEN {e1} ELSE 0 END))\"", " THEN ({e0} % {e1})\"")
 v("c05-sqlite-floordiv-truncates", "C05", SQ, " THEN (({e0} / {e1}) - ((({e0} % {e1}) != 0) AND (({e0} < 0) != ({e1} < 0))))\"", " THEN ({e0} / {e1})\"")
-v("c05-sqlite-mod-same-meaning-other-text", "C05", SQ, " THEN ((({e0} % {e1}) + {e1}) % {e1})\"", " THEN (({e0} % {e1}) + (CASE WHEN (({e0} % {e1}) != 0) AND ((({e0} % {e1}) < 0) != ({e1} < 0)) THEN {e1} ELSE 0 END))\"", expect="silent")
+v("c05-sqlite-mod-same-meaning-other-text", "C05", SQ, " THEN (({e0} % {e1}) + (CASE WHEN (({e0} % {e1}) != 0) AND (({e0} < 0) != ({e1} < 0)) THEN {e1} ELSE 0 END))\"", " THEN (({e0} % {e1}) + (CASE WHEN (({e0} % {e1}) != 0) AND ((({e0} % {e1}) < 0) != ({e1} < 0)) THEN {e1} ELSE 0 END))\"", expect="silent")
 
 OSF = "OrderedSet.py"
-v("d162-xor-inherited", "C24", OSF, "    def __xor__(self, other):\n        # order by self, then other (the inherited operator lets another set, e.g. a keys view, answer with a plain set)\n        assert not isinstance(other, str)  # treat string as atomic value, not iterable\n        other = OrderedSet(other)\n        return OrderedSet(\n            [e for e in self if e not in other] + [e for e in other if e not in self]\n        )\n\n", "")
+v("d162-xor-inherited", "C24", OSF, "    def __xor__(self, other):\n        # order by self, then other (the inherited operator lets another set, e.g. a keys view, answer with a plain set)\n        assert not isinstance(other, str)  # treat string as atomic value, not iterable\n        if not isinstance(other, Iterable):\n            return NotImplemented\n        other = OrderedSet(other)\n        return OrderedSet(\n            [e for e in self if e not in other] + [e for e in other if e not in self]\n        )\n\n", "")
 v("d162-xor-delegates-to-other", "C24", OSF, "        other = OrderedSet(other)\n        return OrderedSet(\n            [e for e in self if e not in other] + [e for e in other if e not in self]\n        )\n", "        return OrderedSet([e for e in self if e not in other]) | (other - self)\n")
 v("d162-xor-twin-ordered-helpers", "C24", OSF, "        return OrderedSet(\n            [e for e in self if e not in other] + [e for e in other if e not in self]\n        )\n", "        left = [e for e in self if e not in other]\n        right = [e for e in other if e not in self]\n        return OrderedSet(left + right)\n", expect="silent")
 
@@ -1187,3 +1187,10 @@ v("d163-generic-mod-truncates", "C05", SM, "    return f\"MOD(MOD({e0}, {e1}) + 
 v("d163-generic-mod-floored-form-twin", "C05", SM, "    return f\"MOD(MOD({e0}, {e1}) + {e1p}, {e1})\"", "    return f\"({e0} - FLOOR({e0} / (1.0 * {e1p})) * {e1p})\"", expect="silent")
 v("d163-generic-remainder-truncates", "C05", SM, "    return f\"({e0} - FLOOR({e0} / (1.0 * {e1})) * {e1})\"", "    return f\"MOD({e0}, {e1})\"")
 v("d163-generic-mod-truncates-c02", "C02", SM, "    return f\"MOD(MOD({e0}, {e1}) + {e1p}, {e1})\"", "    return f\"MOD({e0}, {e1})\"")
+v("d164-is-in-missing-is-member", "C05", PB, "        return numpy.asarray(a.isin(b), dtype=bool) & numpy.asarray(a.notna(), dtype=bool)\n", "        return numpy.asarray(a.isin(b), dtype=bool)\n")
+v("d165-literal-through-float", "C14", SOL, "    if isinstance(value, numpy.generic) and (value.dtype.kind in \"biuf\"):\n        value = value.item()  # numpy numbers as the Python number of the same kind (integers stay exact)\n", "")
+v("d166-function-form-swallows-refusal", "C13", PBLK, "                        except (AssertionError, TypeError):\n                            # the plain function form stays for names taking any number of arguments and for None arguments\n                            if (op_name not in _n_ary_function_names) and (\n                                not any(\n                                    isinstance(ai, data_algebra.expr_rep.Value)\n                                    and (ai.value is None)\n                                    for ai in args\n                                )\n                            ):\n                                raise\n", "                        except (AssertionError, TypeError):\n                            pass\n")
+v("d167-sqlite-mod-sum-overflows", "C05", SQ, " THEN (({e0} % {e1}) + (CASE WHEN (({e0} % {e1}) != 0) AND (({e0} < 0) != ({e1} < 0)) THEN {e1} ELSE 0 END))\"", " THEN ((({e0} % {e1}) + {e1}) % {e1})\"")
+v("d168-xor-takes-non-iterable", "C24", OSF, "        if not isinstance(other, Iterable):\n            return NotImplemented\n        other = OrderedSet(other)\n        return OrderedSet(\n", "        other = OrderedSet(other)\n        return OrderedSet(\n")
+v("d169-list-item-array-for-scalar", "C12", ER2, "                and (vi.dtype.kind in \"biuf\")\n                and (not hasattr(vi, \"__len__\"))\n            ):\n                vi = vi.item()  # a numpy number (not an array or a column)", "                and (vi.dtype.kind in \"biuf\")\n            ):\n                vi = vi.item()  # a numpy number (not an array or a column)")
+v("d170-category-cells-not-in-key", "C25", ECF, "        + [hashlib.sha256(d.iloc[:, j].cat.codes.to_numpy().tobytes()).hexdigest()]\n", "")
